@@ -112,6 +112,27 @@ theorem finalize_reopen (api : Api) (o : WOpts) (roots : Option (List Cid)) (s :
     simp only [List.nil_append] at this
     exact this.trans inv.idx.symm
 
+/-- **Resumption composes.** Interrupt by Finalize and reopen, then (after any number of Has / Get calls, or
+    none) interrupt again by Discard and reopen: the second resumption is accepted too and yields the store
+    of the same log — same file bytes as the first resumed session left (index cut off, header un-finalised,
+    no padding left behind), writer at the same position, the same index records. By `finalize_reopen` and
+    `discard_reopen`: the store a resumption returns satisfies the premises of the next one. -/
+theorem second_resumption (api : Api) (o : WOpts) (roots : Option (List Cid)) (s : Store) (log : List Block) (ix : Index)
+    (inv : Inv o roots s log) (hopen : s.finalized = false ∧ s.closed = false) (hv2 : o.v1 = false)
+    (hix : s.idx.flatten o.codec = some ix) (h64 : 51 + o.dataPad + o.indexPad + s.pos < 2 ^ 64)
+    (hwf : (CarHeader.mk roots 1).wf) (hmax : (encodeHeaderBody ⟨roots, 1⟩).length ≤ o.maxHeader)
+    (hmax32 : (encodeHeaderBody ⟨roots, 1⟩).length ≤ 32 * 2 ^ 20)
+    (lok : LayoutOK o.dataPad o.indexPad (payload roots log).length) (hlog : LogOK log) :
+    ∃ evs s1 s2, s.finalizeEvs o = some evs ∧
+      (resume api o roots (applyWrites s.file evs)).res = .ok s1 ∧
+      (resume api o roots s1.file).res = .ok s2 ∧
+      Inv o roots s2 log ∧ s2.file = s1.file ∧ s2.pos = s.pos ∧ List.Perm s2.idx s.idx ∧
+      s2.closed = false ∧ s2.finalized = false := by
+  obtain ⟨evs, s1, he, hr1, inv1, sh1, hp1, hperm1, hc1, hf1⟩ :=
+    finalize_reopen api o roots s log ix inv hopen hv2 hix h64 hwf hmax hmax32 lok hlog
+  obtain ⟨s2, hr2, inv2, _, hfile2, hp2, hperm2, hc2, hf2⟩ :=
+    discard_reopen api o roots s1 log inv1 sh1 hwf hmax hmax32 hlog
+  exact ⟨evs, s1, s2, he, hr1, hr2, inv2, hfile2, hp2.trans hp1, hperm2.trans hperm1, hc2, hf2⟩
 /-- Refusals issue no write: the file bytes after a refused reopen are the bytes before it. -/
 theorem refused_without_writes (api : Api) (o : WOpts) (roots : Option (List Cid)) (file : Bytes)
     (h : (resumeCore api o roots file).1 = []) : (resume api o roots file).file = file := by
